@@ -672,6 +672,15 @@ func runLeak(x *core.Ctx) {
 			x.Violatef("goroutine-leak", "goroutines grow with the number of "+name+" definitions", name, "%d goroutines before, %d after %d %s inputs (x5 entry points): delta %d\n%s", before, after, n, name, delta, goroutineSummary())
 		}
 	}
+	// two faults in one text: first something the parser rejects at a token that lexes fine, later
+	// something the lexer itself rejects (the lexer goroutine is still scanning when the parser gives up)
+	var twoFaults []string
+	for _, a := range []string{"var = 1\n", "stream|from().period(10s 5s)\n", "stream|from(|x\n", "var x = (1 + \n|", "stream\n|from()\n.x(1 2)\n", "lambda: (\"a\" > ) AND\n"} {
+		for _, b := range []string{"var s = 'unterminated", "var r = \"unterminated", "var g = /unterminated", "#", "var n = 1.2.3", "stream|x('abc", "var d = 10q", "var q = \\"} {
+			twoFaults = append(twoFaults, a+b, a+"stream|from()\n"+b)
+		}
+	}
+	measure("two-fault", twoFaults, 2*len(twoFaults), true)
 	measure("rejected", rejected, 300, true)
 	measure("accepted", accepted, 300, true)
 	x.Sample(map[string]interface{}{"rejected_inputs": rejected[:4], "n": 300})
